@@ -1241,3 +1241,319 @@ def random_scripts(rng, n):
                     yield simple_spend(rng, w[0], w[1], w[2], fix_flags(flags | RS.P2SH | (RS.WITNESS if kind != "p2sh" else 0)), "random.wrapped." + kind)
                     continue
             yield simple_spend(rng, sig, s, [], flags, "random.spend")
+
+
+# ---------------------------------------------------------------------------------------------------
+# 9. every flag's rule x every evaluation stage, with operator-bearing scripts in each stage
+#
+# A fragment is (inputs, body): the script `push(inputs) + body` is self-contained and leaves exactly one element, <01>, when no
+# flag beyond the dispatch ones is set. It is placed in each stage either "own" (its inputs are pushed by the stage's own script)
+# or "fed" (its inputs are left by the previous stage: scriptSig pushes / the witness stack). Signatures among the inputs are made
+# here for the script code and digest algorithm of the stage the fragment runs in (legacy + FindAndDelete of the signature's own
+# push in scriptSig / scriptPubKey / redeem script, BIP143 in a witness script).
+
+FS_STAGES = ("scriptSig", "scriptPubKey", "redeem", "witness")
+FS_RULES = ("MINIMALIF", "WITNESS_PUBKEYTYPE", "STRICTENC", "DERSIG", "LOW_S", "NULLDUMMY", "NULLFAIL", "MINIMALDATA",
+            "DISCOURAGE_UPGRADABLE_NOPS", "CHECKLOCKTIMEVERIFY", "CHECKSEQUENCEVERIFY", "CLEANSTACK")
+FS_PLACEMENTS = ("scriptSig.own", "scriptSig.own+p2sh", "scriptSig.own+wit", "scriptPubKey.own", "scriptPubKey.fed", "redeem.own",
+                 "redeem.fed", "witness.fed", "witness.own", "witness.p2sh.fed")
+FS_TX = {"version": 2, "lock_time": 100, "sequence": 10, "amount": 5000}
+P2WSH_TRUE_SPK = b"\x00\x20" + sha256(b"\x51")
+
+
+def _fs_sig(ht=1, form="strict", high=False, wrong=False, ki=1):
+    return ("sig", ki, ht, form, high, wrong)
+
+
+def fs_fragments(keys):
+    """[{name, rule, inputs, body, ok0, ok0w}]: ok0 / ok0w = the consensus verdict the generator promises under the bare dispatch
+    flags in a legacy stage / in a witness script (checked against the reference by the monitor: a broken promise is a harness
+    contradiction, not a violation)"""
+    K, U, H = keys.sec(1, True), keys.sec(1, False), keys.hybrid(1)
+    K2 = keys.sec(2, True)
+    short = K[:32]
+    IF_, NOTIF, ELSE, ENDIF, NOT, DROP, CS, CMS = b"\x63", b"\x64", b"\x67", b"\x68", b"\x91", b"\x75", b"\xac", b"\xae"
+    out = []
+
+    def add(name, rule, inputs, body, ok0=True, ok0w=None):
+        out.append({"name": name, "rule": rule, "inputs": list(inputs), "body": body, "ok0": ok0, "ok0w": ok0 if ok0w is None else ok0w})
+    ifbody, notifbody = IF_ + b"\x51" + ELSE + b"\x00" + ENDIF, NOTIF + b"\x51" + ELSE + b"\x00" + ENDIF
+    for nm, arg in (("02", b"\x02"), ("0100", b"\x01\x00"), ("01", b"\x01"), ("10", b"\x10"), ("81", b"\x81"), ("0001", b"\x00\x01")):
+        add("if_" + nm, "MINIMALIF", [arg], ifbody)
+    for nm, arg in (("00", b"\x00"), ("80", b"\x80"), ("empty", b""), ("0000", b"\x00\x00")):
+        add("notif_" + nm, "MINIMALIF", [arg], notifbody)
+    add("if_nested_02", "MINIMALIF", [b"\x01", b"\x02"], IF_ + IF_ + b"\x51" + ELSE + b"\x00" + ENDIF + ELSE + b"\x00" + ENDIF)
+    add("if_dead_02", "MINIMALIF", [b"\x02", b""], IF_ + IF_ + b"\x00" + ENDIF + DROP + b"\x00" + ELSE + DROP + b"\x51" + ENDIF)
+    # key forms
+    add("cs_uncomp", "WITNESS_PUBKEYTYPE", [_fs_sig()], push(U) + CS)
+    add("cs_comp", "WITNESS_PUBKEYTYPE", [_fs_sig()], push(K) + CS)
+    add("cs_hybrid", "STRICTENC", [_fs_sig()], push(H) + CS)
+    add("cs_uncomp_empty_not", "WITNESS_PUBKEYTYPE", [b""], push(U) + CS + NOT)
+    add("cs_short_key_not", "WITNESS_PUBKEYTYPE", [b""], push(short) + CS + NOT)
+    add("cs_hybrid_empty_not", "STRICTENC", [b""], push(H) + CS + NOT)
+    add("cms_uncomp_empty_not", "WITNESS_PUBKEYTYPE", [b"", b""], b"\x51" + push(U) + b"\x51" + CMS + NOT)
+    add("cms_uncomp", "WITNESS_PUBKEYTYPE", [b"", _fs_sig()], b"\x51" + push(U) + b"\x51" + CMS)
+    add("cms_uncomp_unexamined", "WITNESS_PUBKEYTYPE", [b"", _fs_sig(ki=2)], b"\x51" + push(U) + push(K2) + b"\x52" + CMS)
+    add("cms_uncomp_examined", "WITNESS_PUBKEYTYPE", [b"", _fs_sig(ki=2)], b"\x51" + push(K2) + push(U) + b"\x52" + CMS)
+    add("csv_uncomp", "WITNESS_PUBKEYTYPE", [_fs_sig()], push(U) + b"\xad\x51")
+    # signature forms
+    add("cs_padded_r", "DERSIG", [_fs_sig(form="padded_r")], push(K) + CS)
+    add("cs_longlen", "DERSIG", [_fs_sig(form="longlen")], push(K) + CS)
+    add("cs_high_s", "LOW_S", [_fs_sig(high=True)], push(K) + CS)
+    add("cs_ht4", "STRICTENC", [_fs_sig(ht=4)], push(K) + CS)
+    add("cs_ht0", "STRICTENC", [_fs_sig(ht=0)], push(K) + CS)
+    add("cs_ht83", "STRICTENC", [_fs_sig(ht=0x83)], push(K) + CS)
+    add("cms_dummy_01", "NULLDUMMY", [b"\x01", _fs_sig()], b"\x51" + push(K) + b"\x51" + CMS)
+    add("cms_dummy_00", "NULLDUMMY", [b"\x00", _fs_sig()], b"\x51" + push(K) + b"\x51" + CMS)
+    add("cms_dummy_empty", "NULLDUMMY", [b"", _fs_sig()], b"\x51" + push(K) + b"\x51" + CMS)
+    add("cs_wrong_not", "NULLFAIL", [_fs_sig(wrong=True)], push(K) + CS + NOT)
+    add("cms_wrong_not", "NULLFAIL", [b"", _fs_sig(wrong=True)], b"\x51" + push(K) + b"\x51" + CMS + NOT)
+    add("cs_empty_not", "NULLFAIL", [b""], push(K) + CS + NOT)
+    # minimal pushes and numbers
+    add("md_pushdata1", "MINIMALDATA", [], b"\x4c\x01\x05" + DROP + b"\x51")
+    add("md_direct_05", "MINIMALDATA", [], b"\x01\x05" + DROP + b"\x51")
+    add("md_pushdata2", "MINIMALDATA", [], b"\x4d\x02\x00\x07\x07" + DROP + b"\x51")
+    add("md_dead_push", "MINIMALDATA", [], b"\x00" + IF_ + b"\x4c\x01\x05" + ENDIF + b"\x51")
+    add("md_num", "MINIMALDATA", [b"\x01\x00"], b"\x8b\x52\x87")
+    add("md_num_negzero", "MINIMALDATA", [b"\x80"], b"\x8b\x51\x87")
+    add("md_pick", "MINIMALDATA", [b"\x07", b"\x00"], b"\x79\x87")
+    add("md_cms_counts", "MINIMALDATA", [b"", b"\x00", b"\x00"], CMS)
+    add("md_ok", "MINIMALDATA", [b"\x01"], b"\x8b\x52\x87")
+    # upgradable NOPs and the lock-time opcodes (tx: version 2, lock_time 100, sequence 10)
+    add("nop1", "DISCOURAGE_UPGRADABLE_NOPS", [], b"\x51\xb0")
+    add("nop10", "DISCOURAGE_UPGRADABLE_NOPS", [], b"\xb9\x51")
+    add("nop4_dead", "DISCOURAGE_UPGRADABLE_NOPS", [], b"\x00" + IF_ + b"\xb3" + ENDIF + b"\x51")
+    for nm, op, rule in (("cltv", b"\xb1", "CHECKLOCKTIMEVERIFY"), ("csv", b"\xb2", "CHECKSEQUENCEVERIFY")):
+        big, small = (200, 50) if nm == "cltv" else (20, 5)
+        add(nm + "_unsat", rule, [RS.num_encode(big)], op + DROP + b"\x51")
+        add(nm + "_sat", rule, [RS.num_encode(small)], op + DROP + b"\x51")
+        add(nm + "_neg", rule, [b"\x81"], op + DROP + b"\x51")
+        add(nm + "_5byte", rule, [RS.num_encode((1 << 31) | 5)], op + DROP + b"\x51")
+        add(nm + "_nonminimal", rule, [RS.num_encode(small) + b"\x00"], op + DROP + b"\x51")
+        add(nm + "_nostack", rule, [], op + b"\x51")
+    # what is left at the end
+    add("extra_item", "CLEANSTACK", [], b"\x51\x51\x61", True, False)
+    add("extra_item_below_false", "CLEANSTACK", [b""], b"\x61\x51", True, False)
+    add("push1", "CLEANSTACK", [b"\x01"], b"")
+    return out
+
+
+# fragments that fail part-way (error-path workload) and fragments whose verdict would change if anything were left behind
+def fs_failing_fragments(keys):
+    K = keys.sec(1, True)
+    out = []
+
+    def add(name, inputs, body):
+        out.append({"name": name, "rule": None, "inputs": list(inputs), "body": body, "ok0": False, "ok0w": False})
+    add("fail_in_nested_if_with_alt", [], b"\x51\x63\x51\x63\x57\x6b\x58\x6b" + b"\x61" * 40 + b"\x00\x69\x68\x68\x51")
+    add("fail_open_if", [], b"\x51\x63\x51\x63\x51")
+    add("fail_false_branch_open", [], b"\x00\x63\x51\x63\x6a")
+    add("fail_return_with_stack", [b"\x07", b"\x08"], b"\x6b\x6b\x51\x51\x51\x6a")
+    add("fail_truncated_push", [], b"\x51\x51\x6b\x05\x01\x02")
+    add("fail_disabled_in_if", [], b"\x51\x63\x51\x51\x7e\x68")
+    add("fail_opcount", [], b"\x51" + b"\x61" * 202)
+    add("fail_stack_overflow", [], b"\x51" + b"\x76" * 120 + b"\x6f" * 80 + b"\x6e" * 400)
+    add("fail_multisig_sigcount", [b"", b""], b"\x53" + push(K) + b"\x51\xae")
+    add("fail_multisig_keycount", [b""], b"\x51" + push(K) + b"\x01\x15\xae")
+    add("fail_checksigverify", [_fs_sig(wrong=True)], b"\x57\x6b" + push(K) + b"\xad\x51")
+    add("fail_equalverify", [b"\x07"], b"\x51\x63\x58\x88\x68\x51")
+    add("fail_numeric_overflow", [b"\x01\x00\x00\x00\x00"], b"\x51\x6b\x8b")
+    add("fail_unbalanced_else", [], b"\x51\x67\x51")
+    add("fail_verif_dead", [], b"\x00\x63\x65\x68\x51")
+    return out
+
+
+def fs_detector_fragments():
+    """succeed only on a clean slate: empty alt stack, no open conditional, empty data stack, zero operation count"""
+    out = []
+
+    def add(name, body, ok0):
+        out.append({"name": name, "rule": None, "inputs": [], "body": body, "ok0": ok0, "ok0w": ok0})
+    add("det_fromalt_empty", b"\x6c", False)
+    add("det_depth_zero", b"\x74\x00\x87", True)
+    add("det_endif_alone", b"\x51\x68", False)
+    add("det_else_alone", b"\x67\x51\x68", False)
+    add("det_201_ops", b"\x51" + b"\x61" * 201, True)
+    add("det_stack_999", b"\x51" + b"\x76" * 120 + b"\x6f" * 80 + b"\x6e" * 319 + b"\x76" + b"\x6d" * 499, True)
+    add("det_alt_roundtrip", b"\x51\x6b\x6c", True)
+    return out
+
+
+def _fs_item_push(x):
+    return push(x)
+
+
+def fs_place(keys, frag, placement, tx, n_in, amount):
+    """(scriptSig, scriptPubKey, witness) putting the fragment into the stage named by `placement` for input n_in of `tx`
+    (whose scripts are not yet set), or None where the placement does not exist for this fragment"""
+    stage, _, how = placement.partition(".")
+    inputs, body = frag["inputs"], frag["body"]
+    has_sig = any(isinstance(x, tuple) for x in inputs)
+    own = how.startswith("own")
+    if stage == "witness" and own and has_sig:
+        return None             # a witness script cannot contain a signature over itself
+    if not own and not inputs:
+        return None             # nothing to feed: the same as "own"
+    if stage == "witness" and any(not isinstance(x, tuple) and len(x) > 520 for x in inputs):
+        return None
+    suffix = b""
+    redeem_of_sig = b"\x51\x87"
+    if placement == "scriptSig.own+p2sh":
+        suffix = SH.push_data(redeem_of_sig)
+    plain = [x for x in inputs if not isinstance(x, tuple)]
+    if own:
+        code = b"".join(push(x) for x in plain) + body + suffix      # the stage's script minus the pushes of its signatures
+    else:
+        code = body
+    resolved = []
+    for x in inputs:
+        if isinstance(x, tuple):
+            _, ki, ht, form, high, wrong = x
+            digest = SH.bip143(tx, n_in, code, amount, ht) if stage == "witness" else SH.legacy(tx, n_in, code, ht)
+            if wrong:
+                digest = sha256(digest)
+            x = sig_blob(keys, ki, digest, ht, form, high)
+        resolved.append(x)
+    if own:
+        full = b"".join(SH.push_data(x) if isinstance(i, tuple) else push(x) for i, x in zip(inputs, resolved)) + body
+    else:
+        full = body
+    feed = b"".join(push(x) for x in resolved)
+    if placement == "scriptSig.own":
+        return full, b"\x51\x87", []
+    if placement == "scriptSig.own+p2sh":
+        return full + suffix, b"\xa9\x14" + hash160(redeem_of_sig) + b"\x87", []
+    if placement == "scriptSig.own+wit":
+        return full, P2WSH_TRUE_SPK, [b"\x51"]
+    if placement == "scriptPubKey.own":
+        return b"", full, []
+    if placement == "scriptPubKey.fed":
+        return feed, full, []
+    if placement == "redeem.own":
+        return SH.push_data(full), b"\xa9\x14" + hash160(full) + b"\x87", []
+    if placement == "redeem.fed":
+        return feed + SH.push_data(full), b"\xa9\x14" + hash160(full) + b"\x87", []
+    prog = b"\x00\x20" + sha256(full)
+    wit = ([] if own else list(resolved)) + [full]
+    if placement in ("witness.fed", "witness.own"):
+        return b"", prog, wit
+    if placement == "witness.p2sh.fed":
+        return SH.push_data(prog), b"\xa9\x14" + hash160(prog) + b"\x87", wit
+    raise ValueError(placement)
+
+
+def fs_base_flags(placement):
+    stage = placement.split(".")[0]
+    if stage == "witness" or placement == "scriptSig.own+wit":
+        return RS.P2SH | RS.WITNESS
+    if stage == "redeem" or placement == "scriptSig.own+p2sh":
+        return RS.P2SH
+    return 0
+
+
+def fs_flag_sets(frag, placement):
+    base = fs_base_flags(placement)
+    rule = RS.FLAG_NAMES.get(frag["rule"] or "", 0)
+    sets = [base, 0, ALL_FLAGS, ALL_FLAGS & ~RS.SIGPUSHONLY, ALL_FLAGS & ~RS.SIGPUSHONLY & ~RS.CLEANSTACK,
+            ALL_FLAGS & ~RS.SIGPUSHONLY & ~RS.CLEANSTACK & ~rule, fix_flags(base | rule | RS.WITNESS)]
+    sets += [fix_flags(base | (1 << i)) for i in range(16)]
+    seen, out = set(), []
+    for f in sets:
+        if f not in seen and permitted(f):
+            seen.add(f)
+            out.append(f)
+    return out
+
+
+def fs_tx(rng, n_ins=1):
+    tx = mk_tx(rng, b"", [], FS_TX["amount"], FS_TX["version"], FS_TX["lock_time"], FS_TX["sequence"], n_ins - 1, 1, 0)
+    for i in tx["ins"]:
+        i["sequence"] = FS_TX["sequence"]
+    return tx
+
+
+def flag_stage_matrix(rng, keys, placements=FS_PLACEMENTS, narrow=False):
+    """every rule-exercising fragment x every placement x {dispatch flags alone, + each single flag, everything, everything
+    but the fragment's own rule, nothing}. Cases carry "fs": [fragment, placement, rule, promised verdict under the dispatch
+    flags]. With narrow=True only the scriptSig placements in front of a P2SH / witness output for fragments without signatures."""
+    for frag in fs_fragments(keys):
+        for placement in placements:
+            if placement in ("scriptSig.own+p2sh", "scriptSig.own+wit") and frag["name"] not in (
+                    "if_02", "notif_00", "cs_uncomp", "cs_wrong_not", "md_pushdata1", "nop1", "cltv_unsat", "push1", "extra_item"):
+                continue
+            tx = fs_tx(rng)
+            amount = FS_TX["amount"]
+            placed = fs_place(keys, frag, placement, tx, 0, amount)
+            if placed is None:
+                continue
+            ssig, spk, wit = placed
+            tx["ins"][0]["script"], tx["ins"][0]["witness"] = ssig, wit
+            stage = placement.split(".")[0]
+            promise = frag["ok0w"] if stage == "witness" else frag["ok0"]
+            if placement == "scriptSig.own+p2sh" and not RS.is_push_only(ssig):
+                promise = False
+            if placement == "scriptSig.own+wit":
+                promise = False
+            base = fs_base_flags(placement)
+            for flags in fs_flag_sets(frag, placement):
+                case = spend(tx, spk, amount, flags, "flagstage." + stage)
+                case["fs"] = [frag["name"], placement, frag["rule"], promise if flags == base else None]
+                yield case
+
+
+def error_path_multi_cases(rng, keys, n):
+    """transactions of 3..7 inputs mixing spends that fail part-way in every stage (inside conditionals, with things on the alt
+    stack, at the operation / stack limits, inside signature operations), spends that succeed only on a clean slate, rule
+    fragments, and pairs of inputs locked by the SAME script and key; validated on one shared checker object in both orders"""
+    frags, fails, dets = fs_fragments(keys), fs_failing_fragments(keys), fs_detector_fragments()
+    legacy_pl = ("scriptSig.own", "scriptPubKey.own", "scriptPubKey.fed", "redeem.own", "redeem.fed")
+    all_pl = legacy_pl + ("witness.fed", "witness.own", "witness.p2sh.fed")
+    flagsets = [RS.P2SH | RS.WITNESS, ALL_FLAGS & ~RS.SIGPUSHONLY & ~RS.CLEANSTACK, ALL_FLAGS & ~RS.SIGPUSHONLY,
+                RS.P2SH | RS.WITNESS | RS.MINIMALIF | RS.WITNESS_PUBKEYTYPE | RS.NULLFAIL, RS.P2SH | RS.WITNESS | RS.NULLFAIL | RS.MINIMALDATA]
+    K = keys.sec(1, True)
+    for it in range(n):
+        k = rng.choice([3, 4, 5, 6, 7])
+        tx = fs_tx(rng, k)
+        tx["outs"] = [{"value": 700 + j, "script": bytes([0x51 + j])} for j in range(rng.choice([k, k + 1, 2]))]
+        spks, amounts = [], []
+        roles = []
+        twin = rng.random() < 0.5
+        for i in range(k):
+            r = rng.random()
+            if twin and i in (1, 2):
+                roles.append("twin_bad" if i == 1 else "twin_good")
+            elif i % 2 == 0 and r < 0.75:
+                roles.append("fail")
+            elif r < 0.45:
+                roles.append("det")
+            else:
+                roles.append("frag")
+        if twin and rng.random() < 0.5:
+            roles[1], roles[2] = roles[2], roles[1]
+        for i, role in enumerate(roles):
+            amount = 4000 + 13 * i
+            if role in ("twin_bad", "twin_good"):
+                # P2PKH / P2PK on the same key and script for both twins, same hash type; the bad twin carries a wrong signature
+                kind = "p2pk" if it % 2 else "p2pkh"
+                spk = (push(K) + b"\xac") if kind == "p2pk" else (b"\x76\xa9\x14" + hash160(K) + b"\x88\xac")
+                digest = SH.legacy(tx, i, spk, 1)
+                sig = sig_blob(keys, 1, sha256(digest) if role == "twin_bad" else digest, 1)
+                placed = (push(sig) + (push(K) if kind == "p2pkh" else b""), spk, [])
+            else:
+                while True:
+                    pool = fails if role == "fail" else dets if role == "det" else frags
+                    frag = rng.choice(pool)
+                    placed = fs_place(keys, frag, rng.choice(all_pl), tx, i, amount)
+                    if placed is not None:
+                        break
+            tx["ins"][i]["script"], tx["ins"][i]["witness"] = placed[0], placed[2]
+            spks.append(placed[1])
+            amounts.append(amount)
+        case = {"k": "multi", "tx": tx, "spks": spks, "amounts": amounts, "flags": rng.choice(flagsets), "src": "multi.error_path"}
+        if rng.random() < 0.4:
+            # an input the library cannot even evaluate (its witness holds something that is not a byte string): never judged itself
+            j = rng.randrange(k)
+            tx["ins"][j]["script"], tx["ins"][j]["witness"] = b"", [b"\x51"]
+            spks[j] = P2WSH_TRUE_SPK
+            case["poison"] = [[j, rng.choice(["wit_none", "wit_str", "wit_int", "wit_scalar"])]]
+        yield case
